@@ -115,6 +115,36 @@ def gen_image(rng):
     return image(bytes(code))
 
 
+def malformed_files(rng):
+    """files that are not exactly header + image [+ well-formed tables]: the loader must still be a function of the
+    file's bytes (and reject or load, never read stack residue, never hang).  -> [(tag, bytes or None)]"""
+    val = rng.randrange(2, 200)
+    base = image(enc(3, val) + EXIT_AREG)
+    dbg = with_debug_section(base, rng)
+    out = []
+    for tail in ([0], [1], [2], [0xff], [0, 0], [3, 0], [1, 0, 0], [0xff, 3], [rng.randrange(256)], [rng.randrange(256), rng.randrange(4)]):
+        out.append(('trailing-bytes', base + bytes(tail)))
+    cuts = sorted(set([len(base) + k for k in (1, 2, 3, 4, 5, 6, 7, 8, 9)] + [rng.randrange(len(base) + 1, len(dbg)) for _ in range(6)] + [len(dbg) - k for k in (1, 2, 3, 4, 5, 8)]))
+    for c in cuts:
+        out.append(('truncated-tables', dbg[:c]))
+    nw = int.from_bytes(base[:4], 'little')
+    for hdr in (nw + 1, nw + 3, 2 * nw, 199999, 200000, 200001, 250000, 0x3fffffff, 0x40000000, 0x40000001, 0x40000000 + nw, 0x80000000 + nw, 0xffffffff):
+        out.append(('header-mismatch', hdr.to_bytes(4, 'little') + base[4:]))
+    out.append(('header-mismatch', (0).to_bytes(4, 'little') + base[4:]))
+    out.append(('header-mismatch', (nw - 1).to_bytes(4, 'little') + base[4:]))
+    for n in range(4):
+        out.append(('short-file', bytes([rng.randrange(256) for _ in range(n)])))
+    out.append(('short-file', base[:5]))
+    out.append(('short-file', base[:len(base) - 3]))
+    # a symbol whose string index is out of range
+    bad = bytearray(base) + (1).to_bytes(4, 'little') + b'main\0' + (1).to_bytes(4, 'little') + (rng.choice([1, 2, 7, 1000, 0xffffffff])).to_bytes(4, 'little') + (8).to_bytes(4, 'little')
+    out.append(('bad-string-index', bytes(bad)))
+    bad2 = bytearray(base) + (0).to_bytes(4, 'little') + (2).to_bytes(4, 'little') + (0).to_bytes(4, 'little') + (8).to_bytes(4, 'little')
+    out.append(('bad-string-index', bytes(bad2)))
+    out.append(('missing-file', None))
+    return out
+
+
 def loop_image(n):
     """counts down from n then exits with 7: used for the cycle-limit cases"""
     code = bytearray()
@@ -242,6 +272,66 @@ def main():
                 nbad += 1
                 ck.violation('the hexsim executable gives different results for the same binary and input under host-state perturbation or -t: %s / -t rc=%d' % (sorted((x[0], x[1][:20]) for x in outs), rc4),
                              {'binary_hex': open(b, 'rb').read().hex()}, tags={'kind': 'fill'})
+    # ---- files that are not well-formed binaries: the loader is still a function of the file (no stack residue, no hang)
+    dso0 = os.path.join(d, 'dirty_stack0.so')
+    rcc0, _, _ = run3(['cc', '-shared', '-fPIC', '-O0', '-o', dso0, os.path.join(vlib.ROOT, 'harness', 'dirty_stack.c')], timeout=120)
+    hexsim_o0, _ = vlib.repo_tool('hexsim', flags='-O0')
+    if not hexsim or not hexsim_o0 or rcc0 != 0:
+        ck.broken.append('hexsim (-O1/-O0) or the dirty-stack preload does not build: the malformed-file runs cannot be made')
+    else:
+        mal = malformed_files(rng) if not ck.replay_arg else []
+        if ck.thorough():
+            for _ in range(15):
+                mal += malformed_files(rng)
+        for k, (tag, content) in enumerate(mal):
+            dist['malformed:' + tag] = dist.get('malformed:' + tag, 0) + 1
+            fn = os.path.join(d, 'mal%d.bin' % k)
+            if content is None:
+                fn = os.path.join(d, 'no-such-file-%d.bin' % k)
+                exp = ['END loadreject']
+            else:
+                open(fn, 'wb').write(content)
+                rcm, om, em = run3(vlib.big_stack([hv, 'c02run', fn, '300000', '5000']), cwd=d, stdin=open(ip, 'rb'), timeout=300)
+                exp = om.decode().strip().split('\n')
+                if rcm != 0 or not exp[0].startswith('END'):
+                    ck.broken.append('extracted loader/run failed on a malformed file: ' + (om + em).decode()[-200:])
+                    continue
+            runs = []
+            for exe, envs in ((hexsim, [{}, {'LD_PRELOAD': dso0, 'DIRTY_BYTE': '1'}, {'LD_PRELOAD': dso0, 'DIRTY_BYTE': '170'}, {'LD_PRELOAD': dso0, 'DIRTY_BYTE': '255'}, {'MALLOC_PERTURB_': '85', 'PADDING': 'x' * 20000}]),
+                              (hexsim_o0, [{}, {'LD_PRELOAD': dso0, 'DIRTY_BYTE': '85'}, {'LD_PRELOAD': dso0, 'DIRTY_BYTE': '255'}])):
+                for env in envs:
+                    if sum(1 for r in runs if r[0] == 124) >= 2:
+                        break
+                    rcx, ox, ex = run3([exe, fn, '--max-cycles', '5000'], cwd=d, stdin=open(ip, 'rb'), env=env, timeout=6)
+                    ck.cov['evaluations'] += 1
+                    runs.append((rcx, ox, bool(ex.strip())))
+            distinct.add(('malformed', tag, k))
+            what = None
+            if any(r[0] == 124 for r in runs):
+                what = 'hexsim does not terminate on this file (%s): %d of %d runs hit the 6 s limit' % (tag, sum(1 for r in runs if r[0] == 124), len(runs))
+            elif len(set((r[0], r[1]) for r in runs)) > 1:
+                what = 'hexsim runs of one file (%s) differ with the host stack/heap contents: statuses %s' % (tag, sorted(set(r[0] for r in runs)))
+            elif any(r[0] < 0 or r[0] >= 128 for r in runs):
+                what = 'hexsim crashes on this file (%s): status %d' % (tag, runs[0][0])
+            else:
+                kind = exp[0].split()[1]
+                rc0, o0, diag = runs[0]
+                if kind == 'loadreject':
+                    if rc0 == 0 or not diag or o0:
+                        what = 'the loader model rejects this file (%s: program larger than the memory, string index out of range, or no file) but hexsim exits %d %s a diagnostic' % (tag, rc0, 'with' if diag else 'without')
+                elif kind in ('exit', 'limit'):
+                    want = int(dict(x.split('=') for x in exp[0].split()[2:])['rc']) & 0xff
+                    wout = bytes(int(x) for x in exp[2].split()[2:])
+                    if rc0 != want or o0 != wout:
+                        what = 'hexsim on this file (%s) exits %d with output %r; the loader model + ISA run give %d %r' % (tag, rc0, o0[:20], want, wout[:20])
+            if what:
+                nbad += 1
+                if nbad <= 6:
+                    ck.violation(what, {'file_hex': content.hex() if content is not None else None, 'tag': tag, 'expected': exp[:4], 'runs': [(r[0], r[1][:40].hex(), r[2]) for r in runs],
+                                        'cmd': 'hexsim <file> --max-cycles 5000 (stdin "hello\\n"), plain / LD_PRELOAD=dirty_stack.so DIRTY_BYTE=.. / -O0 build'},
+                                 tags={'kind': 'malformed-file', 'tag': tag})
+            elif k % 11 == 0:
+                ck.sample({'malformed': tag, 'size': len(content) if content is not None else None, 'model': exp[0], 'runs': len(runs), 'all_equal': True})
     # ---- the executables cut short by --max-cycles must return the defined initial status (0) whatever the host state
     xrun, _ = vlib.repo_tool('xrun')
     loopsrc = os.path.join(d, 'loop.x')
